@@ -366,6 +366,17 @@ func c12Seq(c *core.Ctx, m *core.Model, r *rand.Rand, idx int) {
 	if !c12Build(c, m, bes, append(append([]storeOp{}, cs.adds...), cs.pre...), &trace) {
 		return
 	}
+	if idx%4 == 3 {
+		// the file store's tree in another CONFIGURATION (c12_layout.go): some of its directories relocated to another volume and linked back;
+		// the models abstract the tree to "mailbox name -> directory", so every answer compared below must stay what it is
+		lay := &fsLayout{root: bf.dir, vol: bf.dir + ".volume2"}
+		os.MkdirAll(lay.vol, 0o755)
+		defer os.RemoveAll(lay.vol)
+		if lay.configure(rand.New(rand.NewSource(c.Seed*7919+int64(idx))), cs.names, 40) > 0 {
+			trace = append(trace, lay.events...)
+			c.H("seq:file-tree-with-linked-directories")
+		}
+	}
 	type run struct {
 		be        *backend
 		pre, post map[string]c12Msg
